@@ -1496,6 +1496,12 @@ class Engine:
             seq = self.ev(it.args[0], st)
             if isinstance(seq, Ref) and self.is_set(st, seq):
                 return self.for_pairs(s, st, seq)
+        if isinstance(it, ast.Call) and isinstance(it.func, ast.Name) and it.func.id == "enumerate" and len(it.args) == 1 \
+                and isinstance(s.target, ast.Tuple) and len(s.target.elts) == 2 \
+                and all(isinstance(e, ast.Name) for e in s.target.elts) and "enumerate" not in st.env and not self.concrete:
+            seq = self.ev(it.args[0], st)
+            if isinstance(seq, Ref) and st.heap[seq.base].kind in ("setlist", "list") and not seq.prefix:
+                return self.for_list(s, st, seq, index_name=s.target.elts[0].id, item_name=s.target.elts[1].id)
         if isinstance(s.target, ast.Name) and not self.concrete:
             seq = self.ev(it, st)
             if isinstance(seq, PyObj) and seq.kind == "strlist":
@@ -1575,12 +1581,13 @@ class Engine:
                 s2.env[va] = s2.env[vb] = PyObj("undefined")
         return res
 
-    def for_list(self, s, st, seq):
-        """iteration over a list, in order; the ghost idx_<var> is the index of the current item"""
+    def for_list(self, s, st, seq, index_name=None, item_name=None):
+        """iteration over a list, in order; the ghost idx_<var> is the index of the current item
+        (`for i, v in enumerate(seq)`: i is that index)"""
         k, spec = self.loop_spec(s)
         if spec is None:
             raise ContractError("for loop #%d (line %d) over a list has no invariant in the sidecar" % (k, s.lineno))
-        v = s.target.id
+        v = item_name or s.target.id
         g = "idx_" + v
         st.env[g] = z3.IntVal(0)
         base = seq.base
@@ -1589,6 +1596,8 @@ class Engine:
             i = to_z3(stt.env[g])
             ho = stt.heap[base]
             stt.env[v] = Ref(base, (i,)) if ho.ndim > 1 else z3.Select(ho.arr, i)
+            if index_name is not None:
+                stt.env[index_name] = i
 
         def cond(stt):
             bind(stt)
